@@ -294,7 +294,7 @@ class C10:
     excl = {'D31': 0}
 
     def budget(self, tier):
-        return 1500 if tier == 'quick' else 40000
+        return 1500 if tier == 'quick' else 18000
 
     def one_cond(self, ch, ctx):
         g = Cond(ch)
